@@ -54,3 +54,20 @@ PROPS["C15"] = {
                    "bytes_unchanged, delivered_is_prefix, chunk_aligned, writer_one_message_per_chunk, split_irrelevant. "
                    "Model tied to the Go code by op-for-op differential runs through the verif hook."),
 }
+
+PROPS["C08"] = {
+    "lean_modules": ["Stef.Props.C08"],
+    "harness": [{"bin": "h_prim", "args": ["limiter"]}],
+    "rule": ("cases = random operation sequences on the real pkg.SizeLimiter (limits 0,1,2,17,100,4096 x adds x resets) "
+             "replayed on the Lean model; non-trivial = a limit flag went up during the case; distinct by generator draw. "
+             "(writer-level limit behaviour on real streams is exercised by the h_codec `limits` mode when present)"),
+    "trusted_base": COMMON_TB + [
+        "Stef/Limiter.lean: SizeLimiter is a hand transcription tied op-for-op by h_prim limiter; the Write/Flush/restartFrame "
+        "control flow is a hand transcription of stefc/templates/go/writer.go.tmpl at the level of sizes",
+    ],
+    "assumptions": ["sizes stay below 2^64 (Go uint arithmetic does not wrap)",
+                    "frame bound excludes the per-frame size table, record count and byte rounding of bit columns"],
+    "level_text": ("Theorems by invariant over all operation histories, limits and flags: dict_below_limit_between_writes, "
+                   "dict_peak_bound (never exceeds L by what one record adds), reset_announced (reader and writer dictionary "
+                   "epochs agree for every record), frame_bound, open_frame_below_limit."),
+}
